@@ -199,10 +199,16 @@ class Folder(object):
             c = callee(e)
             if c and c[0] == 'fn' and c[1].get('name') in ('max', 'min', 'lowest') and not call_args(e):
                 m = re.search(r'numeric_limits<([^>]*)>', qn_ref(c[1]) + ' ' + _callee_text(e))
+                r = None
                 if m:
                     r = type_range(_desugar_std_int(m.group(1)))
-                    if r:
-                        return r[1] if c[1]['name'] == 'max' else r[0]
+                elif c[1].get('kind') == 'CXXMethodDecl' and not c[1].get('_qn') and expr_int_type(e) and \
+                        re.match(r'^[\w: ]+\(\)\s*noexcept$', qtype(c[1]) or ''):
+                    # zero-argument static member max()/min() of a std:: class returning an
+                    # integer type T: std::numeric_limits<T>
+                    r = type_range(expr_int_type(e))
+                if r:
+                    return r[1] if c[1]['name'] == 'max' else r[0]
             return None
         if k == 'CXXConstructExpr' or k == 'InitListExpr':
             ks = kids(e)
